@@ -192,10 +192,31 @@ def _canon_texts(node):
         return _CT_CACHE[ck]
     fn, helpers, binders = _context(node)
     root = canon.normalise(node, helpers, top=(fn is not None and node is fn.body))
-    by_oid, texts = canon.all_ctexts(root, binders)
-    whole = canon.ctext(root, binders)
+    params = fn.params() if fn is not None else None
+    by_oid, texts = canon.all_ctexts(root, binders, params=params)
+    whole = canon.ctext(root, binders, params)
     _CT_CACHE[ck] = (root, by_oid, texts, whole)
     return _CT_CACHE[ck]
+
+
+_SEQ = {}
+
+
+def _seq_texts(node):
+    """one string per function part: the canonical texts of the statements of every block, in order, separated"""
+    ck = id(node)
+    if ck not in _SEQ:
+        import canon
+        from astlib import is_node
+        root, by_oid, texts, whole = _canon_texts(node)
+        fn, helpers, binders = _context(node)
+        marked = canon._mark(__import__("copy").deepcopy(root), binders, fn.params() if fn is not None else None)
+        parts = []
+        for x in canon._walk(marked):
+            if x["k"] == "Block":
+                parts.append("\x1f" + "\x1f".join(canon._flat(canon._plain_show(st).replace("§free:", "§")) for st in x["stmts"]) + "\x1f")
+        _SEQ[ck] = "\x1e".join(parts)
+    return _SEQ[ck]
 
 
 def _learn(kind, frag, node):
@@ -238,6 +259,13 @@ def _learn(kind, frag, node):
                 if t not in pats:
                     pats.append(t)
                 taken.append(a["body"])
+        # consecutive statements of one block that the fragment covers must stay consecutive
+        parent_of = {}
+        for blk in walk(node):
+            if blk["k"] == "Block":
+                for ix, st in enumerate(blk["stmts"]):
+                    parent_of[id(st)] = (id(blk), ix)
+        prev = None
         for d in covered:
             if any(_is_desc(d, b) for b in taken):
                 continue
@@ -245,8 +273,19 @@ def _learn(kind, frag, node):
             if t is None and d["k"] == "Let" and isinstance(d.get("init"), dict):
                 # the binding was inlined into its use: its initialiser lives on there
                 t = by_oid.get(d["init"].get("_oid"))
-            if t is not None and t not in pats:
+                prev = None
+                if t is not None and t not in pats:
+                    pats.append(t)
+                continue
+            if t is None:
+                prev = None
+                continue
+            here = parent_of.get(id(d))
+            if prev is not None and here is not None and prev[0] == here[0] and prev[1] + 1 == here[1] and pats and pats[-1].split("\x1f")[-1] == prev[2]:
+                pats[-1] = pats[-1] + "\x1f" + t
+            elif t not in pats:
                 pats.append(t)
+            prev = (here[0], here[1], t) if here is not None else None
     entry = _LEARNED.setdefault(k, {"frag": frag[:100], "kind": kind, "alts": []})
     if pats and pats not in entry["alts"]:
         entry["alts"].append(pats)
@@ -300,7 +339,7 @@ def _canon_match(kind, frag, node):
         if kind == "same":
             if alt == [whole]:
                 return True
-        elif all(p in texts for p in alt):
+        elif all((p in texts) if "\x1f" not in p else (("\x1f" + p + "\x1f") in _seq_texts(node)) for p in alt):
             return True
     return False
 
@@ -388,3 +427,13 @@ def msum(prog, name_rx, stop=None, crate=None):
         t = mirsum.summary(prog, b, stop=stop, effects=eff)
         out.append((b.name, mirsum.fmt(t) if t is not None else None, [mirsum.fmt(e) for e in eff]))
     return out
+
+
+def mpaths(prog, name_rx, depth=0, stop=None, crate=None):
+    """canonical path traces (py/mirsum.py paths) of the single body matching name_rx: sorted list of lines, or None"""
+    import mirsum
+    bs = prog.bodies_matching(name_rx, crate)
+    if len(bs) != 1:
+        return None
+    ps = mirsum.paths(prog, bs[0], depth=depth, stop=stop)
+    return mirsum.fmt_paths(ps, prog) if ps is not None else None
